@@ -9,6 +9,65 @@ from sa.props.c01 import writer_call, WRITER_CASES
 from sa.props.reader_rules import src_chain
 
 
+def _flatten(v, depth=0):
+    """([('lit', text) | ('join', value) | ('unk', value)], bad_encoding) with adjacent literals merged."""
+    out = []
+    bad = [None]
+
+    def lit(x):
+        if isinstance(x, bytes):
+            x = x.decode('latin-1')
+        return ('lit', str(x))
+
+    def walk(x, d):
+        if d > 30:
+            out.append(('unk', x))
+            return
+        if is_concrete(x) and isinstance(concrete(x), (str, bytes, int)) and not isinstance(concrete(x), bool):
+            out.append(lit(concrete(x)))
+            return
+        if isinstance(x, Unk) and getattr(x, 'joined', None):
+            out.append(('join', x))
+            return
+        if isinstance(x, Unk) and x.src:
+            s_ = x.src
+            if s_[0] == 'binop' and s_[1] == 'Add':
+                walk(s_[2], d + 1)
+                walk(s_[3], d + 1)
+                return
+            if s_[0] == 'method' and s_[2] == 'encode':
+                e_ = s_[3][0] if len(s_) > 3 and s_[3] else None
+                if not (is_concrete(e_) and str(concrete(e_)).lower().replace('_', '-') in ('ascii', 'us-ascii')):
+                    bad[0] = concrete(e_) if is_concrete(e_) else '<unknown>'
+                walk(s_[1], d + 1)
+                return
+            if s_[0] == 'format' and is_concrete(s_[1]) and isinstance(concrete(s_[1]), (str, bytes)):
+                fmt = concrete(s_[1])
+                if isinstance(fmt, bytes):
+                    fmt = fmt.decode('latin-1')
+                args = s_[2] if isinstance(s_[2], (list, tuple)) else [s_[2]]
+                import re as _re
+                parts = _re.split(r'(%[sdr])', fmt)
+                if sum(1 for p_ in parts if p_ in ('%s', '%d', '%r')) == len(args) and '%' not in ''.join(p_ for p_ in parts if p_ not in ('%s', '%d', '%r')):
+                    k = 0
+                    for p_ in parts:
+                        if p_ in ('%s', '%d', '%r'):
+                            walk(args[k], d + 1)
+                            k += 1
+                        elif p_:
+                            out.append(('lit', p_))
+                    return
+        out.append(('unk', x))
+    walk(v, depth)
+    merged = []
+    for t in out:
+        if t[0] == 'lit' and merged and merged[-1][0] == 'lit':
+            merged[-1] = ('lit', merged[-1][1] + t[1])
+        else:
+            merged.append(t)
+    return merged, bad[0]
+
+
 def run(P, rep, tier):
     P.func('pydiffx.utils.text', 'split_lines')     # anchor of the line-splitting role (analysed by C16); vanished -> exit 2
     rep.explanation = (
@@ -69,38 +128,37 @@ def run(P, rep, tier):
                 continue
             hdr, body = writes
             H = hdr.data['data']
-            # shape: Add(Add(prefix, Add(b' ', encode(join))), b'\n')
+            # normal form of the header value: literal text pieces and the joined option list, whatever mix of
+            # concatenation, %-formatting and .encode('ascii') assembled it
             shape_ok = False
-            if isinstance(H, Unk) and H.src and H.src[0] == 'binop' and H.src[1] == 'Add' and is_concrete(H.src[3]) and concrete(H.src[3]) == b'\n':
-                inner = H.src[2]
-                if isinstance(inner, Unk) and inner.src and inner.src[0] == 'binop' and is_concrete(inner.src[2]) \
-                        and concrete(inner.src[2]).startswith(b'#') and concrete(inner.src[2]).endswith(b':'):
-                    tail = inner.src[3]
-                    if isinstance(tail, Unk) and tail.src and tail.src[0] == 'binop' and is_concrete(tail.src[2]) and concrete(tail.src[2]) == b' ':
-                        enc = tail.src[3]
-                        if isinstance(enc, Unk) and enc.src and enc.src[0] == 'method' and enc.src[2] == 'encode' \
-                                and is_concrete(enc.src[3][0]) and concrete(enc.src[3][0]) == 'ascii':
-                            j = enc.src[1]
-                            if isinstance(j, Unk) and getattr(j, 'joined', None):
-                                sep = j.joined[0]
-                                if not (is_concrete(sep) and concrete(sep) == ', '):
-                                    probs3.add('options are joined with %r, not ", "' % (concrete(sep),))
-                                elif not getattr(j, 'join_sorted', False):
-                                    probs3.add('options are not rendered in an iteration sorted by key')
-                                else:
-                                    shape_ok = True
-                                    # the concrete items must be in alphabetical order as rendered
-                                    kk = []
-                                    for it_ in j.joined[2]:
-                                        if is_concrete(it_) and isinstance(concrete(it_), str):
-                                            kk.append(concrete(it_).split('=', 1)[0])
-                                        elif isinstance(it_, Unk) and it_.src and it_.src[0] == 'format':
-                                            a_ = it_.src[2]
-                                            if isinstance(a_, (list, tuple)) and a_ and is_concrete(a_[0]):
-                                                kk.append(str(concrete(a_[0])))
-                                    if kk != sorted(kk):
-                                        shape_ok = False
-                                        probs3.add('rendered option order %s is not alphabetical' % kk)
+            flat, enc_bad = _flatten(H)
+            lits = ''.join(x[1] for x in flat if x[0] == 'lit')
+            joins = [x for x in flat if x[0] == 'join']
+            unks = [x for x in flat if x[0] == 'unk']
+            if enc_bad:
+                probs3.add('header text is encoded with %r, not ascii' % (enc_bad,))
+            elif len(joins) == 1 and not unks and len(flat) == 3 and flat[0][0] == 'lit' and flat[2] == ('lit', '\n') \
+                    and flat[0][1].startswith('#') and flat[0][1].endswith(': ') and ' ' not in flat[0][1][:-1]:
+                j = joins[0][1]
+                sep = j.joined[0]
+                if not (is_concrete(sep) and concrete(sep) == ', '):
+                    probs3.add('options are joined with %r, not ", "' % (concrete(sep),))
+                elif not getattr(j, 'join_sorted', False):
+                    probs3.add('options are not rendered in an iteration sorted by key')
+                else:
+                    shape_ok = True
+                    # the concrete items must be in alphabetical order as rendered
+                    kk = []
+                    for it_ in j.joined[2]:
+                        if is_concrete(it_) and isinstance(concrete(it_), str):
+                            kk.append(concrete(it_).split('=', 1)[0])
+                        elif isinstance(it_, Unk) and it_.src and it_.src[0] == 'format':
+                            a_ = it_.src[2]
+                            if isinstance(a_, (list, tuple)) and a_ and is_concrete(a_[0]):
+                                kk.append(str(concrete(a_[0])))
+                    if kk != sorted(kk):
+                        shape_ok = False
+                        probs3.add('rendered option order %s is not alphabetical' % kk)
             if not shape_ok and not probs3:
                 probs3.add('the header bytes are not assembled as "#<id>:" [+ " " + ascii(options)] + LF')
             # length
@@ -191,19 +249,13 @@ def run(P, rep, tier):
     strip = P.func('pydiffx.utils.text', 'strip_bom')
     nlf = P.fold_module_const('pydiffx.utils.text', 'NEWLINE_FORMATS')
     consts = set(nlf.values()) | {'\n', '\r\n'}
-    nsite = 0
+    wfuncs = []
     for name in ('write_preamble', 'write_diff', 'write_meta'):
         for f in closure(P, cls.find_method(name), cls):
-            if f.cls is cls and c15._encodes_newline(f, consts) and f.name not in ('_build_section_header',):
-                for site, ok, msg in c15._route_check(P, f, strip, consts):
-                    nsite += 1
-                    if ok:
-                        rep.ok(r6, '%s: %s' % (f.short, site))
-                    else:
-                        rep.violation(r6, 'unrouted:%s:%s' % (f.short, site), f.loc(), '%s: %s' % (f.short, msg), path=[f.short])
-                break
-        if nsite:
-            break
+            if f.cls is cls and f not in wfuncs:
+                wfuncs.append(f)
+    if not c15.route_rule(P, rep, r6, wfuncs, strip, consts):
+        raise AnalysisError('no newline encoding site found in the writer (idiom not recognised)')
     # ---- R9 scopes ------------------------------------------------------------------------------
     r9 = rep.rule('C02-R9', 'effective encoding of each content section follows the nesting oracle (K1)', reference=20)
     from sa.props.c04 import writer_scope_rule
